@@ -54,6 +54,7 @@ CONSTANTS
   Known,        \* enabled deviations
   SpinTopics,   \* topics whose API consumer is the pending-transaction one (D19)
   BufCap,       \* cap of the modelled backlog of a subscriber channel
+  RespCap,      \* cap of the modelled backlog of ResponsesCh (senders blocked in the send)
   WithIndexer,  \* model the indexer service loops
   MaxHeaders    \* block headers delivered to the indexer service
 
@@ -250,11 +251,10 @@ pt_done: skip;
 
 \* ------------------------------------------------------------------ clients
 process (client \in CLs)
-variables round = 1; cs = 0; ct = 0; seen = FALSE; ok = FALSE; polls = 0; found = FALSE;
+variables round = 1; cs = SubOf(self - 30, 1); ct = 0; seen = FALSE; ok = FALSE; polls = 0; found = FALSE;
 {
 c_begin:
   while (round <= Rounds) {
-    cs := SubOf(self - 30, round); polls := 0;
     if (Api) {
 c_flock:                                            \* NewBlockFilter: api.filtersMu.Lock() (held to return)
       await fmu = 0; fmu := self;
@@ -262,13 +262,17 @@ c_flock:                                            \* NewBlockFilter: api.filte
 c_topics:                                           \* es.subscribe: existingSubs := es.eventBus.Topics()
     with (tt \in Topics) { ct := tt };
     subTopic[cs] := ct;
-    seen := busTopics[ct] # 0;
-    if (seen /\ "D18" \in Known) { goto c_bsub1 };
+    if ("D18" \notin Known) {
+      \* property-respecting design: every subscription is installed (the Topics() snapshot decides nothing)
+      installQ := installQ \cup {cs}; goto c_bsub1;
+    } else {
+      seen := busTopics[ct] # 0;
+      if (seen) { goto c_bsub1 };
+    };
 c_inst:                                             \* [cometWSClient.Subscribe]; es.install <- sub
     installQ := installQ \cup {cs};
-c_wait:                                             \* <-sub.installed
-    await installed[cs];
-c_bsub1:                                            \* eventBus.Subscribe: topicsMux.RLock; _, ok := m.topics[name]
+c_bsub1:                                            \* <-sub.installed; eventBus.Subscribe: topicsMux.RLock; _, ok := m.topics[name]
+    await seen \/ installed[cs];
     ok := busTopics[ct] # 0;
 c_bsub2:                                            \* subscribersMux.Lock; m.subscribers[name][id] = ch
     if (ok) { busSubs[ct] := busSubs[ct] \cup {cs}; if (~Api) { subState[cs] := "live" } }
@@ -317,7 +321,8 @@ c_cancel:                                           \* deferred cancelSubs(): bu
       busSubs[ct] := busSubs[ct] \ {cs};
     };
 c_next:
-    round := round + 1; cs := 0; ct := 0; seen := FALSE; ok := FALSE; found := FALSE; polls := 0;
+    round := round + 1; cs := IF round <= Rounds THEN SubOf(self - 30, round) ELSE 0;
+    ct := 0; seen := FALSE; ok := FALSE; found := FALSE; polls := 0;
   }
 }
 
@@ -393,6 +398,7 @@ process (source = SRC)
 {
 src_send:
   while (emitted < MaxEvents) {
+    await Len(resp) < RespCap;
     with (tt \in Topics) { resp := Append(resp, tt) };
     emitted := emitted + 1;
   }
@@ -403,7 +409,9 @@ process (idxHeader = IH)
 variables h = 0;
 {
 ih_sel:
-  while (WithIndexer) {
+  await WithIndexer;
+ih_loop:
+  while (TRUE) {
     either { await hdr # <<>>; h := Head(hdr); hdr := Tail(hdr);
 ih_cmp:      if (h > latestBlock) {                 \* racy read
 ih_set:        latestBlock := h;                    \* racy write
@@ -411,7 +419,6 @@ ih_sig:        if (newBlockSig = 0) { newBlockSig := 1 } } }
     or { await quit; goto ih_q }
     or { await quitBuf = 1; quitBuf := 0; goto ih_q };
   };
-  goto ih_done;
 ih_q:                                               \* quitSignalReBroadcast <- struct{}{} (cap 1)
   if ("D20" \in Known) { await quitBuf = 0; quitBuf := 1 }
   else { quitBuf := 1 };
@@ -422,8 +429,10 @@ ih_done: skip;
 process (idxMain = IM)
 variables lb = 0;
 {
+im_start:
+  await WithIndexer;
 im_top:
-  while (WithIndexer) {
+  while (TRUE) {
     either { await quit; goto im_q }
     or { await quitBuf = 1; quitBuf := 0; goto im_q }
     or { await ~quit /\ quitBuf = 0 };
@@ -441,7 +450,6 @@ im_index:                                           \* for i := lastIndexed+1; i
       }
     }
   };
-  goto im_done;
 im_q:
   if ("D20" \in Known) { await quitBuf = 0; quitBuf := 1 }
   else { quitBuf := 1 };
@@ -452,8 +460,10 @@ im_done: skip;
 process (idxEnv = IQ)
 variables sent = 0;
 {
+iq_start:
+  await WithIndexer;
 iq_loop:
-  while (WithIndexer /\ ~quit) {
+  while (~quit) {
     either { await sent < MaxHeaders; sent := sent + 1; hdr := Append(hdr, sent) }
     or { quit := TRUE };
   }
@@ -542,7 +552,7 @@ Init == (* Global variables *)
         /\ ptOk = [self \in PTs |-> FALSE]
         (* Process client *)
         /\ round = [self \in CLs |-> 1]
-        /\ cs = [self \in CLs |-> 0]
+        /\ cs = [self \in CLs |-> SubOf(self - 30, 1)]
         /\ ct = [self \in CLs |-> 0]
         /\ seen = [self \in CLs |-> FALSE]
         /\ ok = [self \in CLs |-> FALSE]
@@ -565,8 +575,8 @@ Init == (* Global variables *)
                                         [] self = TL -> "tl_idle"
                                         [] self = SRC -> "src_send"
                                         [] self = IH -> "ih_sel"
-                                        [] self = IM -> "im_top"
-                                        [] self = IQ -> "iq_loop"]
+                                        [] self = IM -> "im_start"
+                                        [] self = IQ -> "iq_start"]
 
 el_wait == /\ pc[EL] = "el_wait"
            /\ \/ /\ installQ # {} /\ idxR = 0 /\ ~idxW
@@ -918,13 +928,10 @@ publishTopic(self) == pt_recv(self) \/ pt_loop(self) \/ pt_pub(self)
 
 c_begin(self) == /\ pc[self] = "c_begin"
                  /\ IF round[self] <= Rounds
-                       THEN /\ cs' = [cs EXCEPT ![self] = SubOf(self - 30, round[self])]
-                            /\ polls' = [polls EXCEPT ![self] = 0]
-                            /\ IF Api
+                       THEN /\ IF Api
                                   THEN /\ pc' = [pc EXCEPT ![self] = "c_flock"]
                                   ELSE /\ pc' = [pc EXCEPT ![self] = "c_topics"]
                        ELSE /\ pc' = [pc EXCEPT ![self] = "Done"]
-                            /\ UNCHANGED << cs, polls >>
                  /\ UNCHANGED << crashed, busTopics, busSubs, subCh, idxR, 
                                  idxW, index, topicChans, chans, nextChan, 
                                  installQ, uninstallQ, installed, errClosed, 
@@ -932,29 +939,34 @@ c_begin(self) == /\ pc[self] = "c_begin"
                                  filters, timer, coSpawned, ticks, fires, 
                                  latestBlock, lastIndexed, hdr, newBlockSig, 
                                  quitBuf, quit, f, ft, ech, addOk, inUse, cch, 
-                                 pch, pt, ptOk, round, ct, seen, ok, found, me, 
-                                 h, lb, sent >>
+                                 pch, pt, ptOk, round, cs, ct, seen, ok, polls, 
+                                 found, me, h, lb, sent >>
 
 c_topics(self) == /\ pc[self] = "c_topics"
                   /\ \E tt \in Topics:
                        ct' = [ct EXCEPT ![self] = tt]
                   /\ subTopic' = [subTopic EXCEPT ![cs[self]] = ct'[self]]
-                  /\ seen' = [seen EXCEPT ![self] = busTopics[ct'[self]] # 0]
-                  /\ IF seen'[self] /\ "D18" \in Known
-                        THEN /\ pc' = [pc EXCEPT ![self] = "c_bsub1"]
-                        ELSE /\ pc' = [pc EXCEPT ![self] = "c_inst"]
+                  /\ IF "D18" \notin Known
+                        THEN /\ installQ' = (installQ \cup {cs[self]})
+                             /\ pc' = [pc EXCEPT ![self] = "c_bsub1"]
+                             /\ seen' = seen
+                        ELSE /\ seen' = [seen EXCEPT ![self] = busTopics[ct'[self]] # 0]
+                             /\ IF seen'[self]
+                                   THEN /\ pc' = [pc EXCEPT ![self] = "c_bsub1"]
+                                   ELSE /\ pc' = [pc EXCEPT ![self] = "c_inst"]
+                             /\ UNCHANGED installQ
                   /\ UNCHANGED << crashed, busTopics, busSubs, subCh, idxR, 
                                   idxW, index, topicChans, chans, nextChan, 
-                                  installQ, uninstallQ, installed, errClosed, 
-                                  subState, unReq, resp, emitted, fmu, filters, 
-                                  timer, coSpawned, ticks, fires, latestBlock, 
+                                  uninstallQ, installed, errClosed, subState, 
+                                  unReq, resp, emitted, fmu, filters, timer, 
+                                  coSpawned, ticks, fires, latestBlock, 
                                   lastIndexed, hdr, newBlockSig, quitBuf, quit, 
                                   f, ft, ech, addOk, inUse, cch, pch, pt, ptOk, 
                                   round, cs, ok, polls, found, me, h, lb, sent >>
 
 c_inst(self) == /\ pc[self] = "c_inst"
                 /\ installQ' = (installQ \cup {cs[self]})
-                /\ pc' = [pc EXCEPT ![self] = "c_wait"]
+                /\ pc' = [pc EXCEPT ![self] = "c_bsub1"]
                 /\ UNCHANGED << crashed, busTopics, busSubs, subCh, idxR, idxW, 
                                 index, topicChans, chans, nextChan, uninstallQ, 
                                 installed, errClosed, subTopic, subState, 
@@ -965,20 +977,8 @@ c_inst(self) == /\ pc[self] = "c_inst"
                                 round, cs, ct, seen, ok, polls, found, me, h, 
                                 lb, sent >>
 
-c_wait(self) == /\ pc[self] = "c_wait"
-                /\ installed[cs[self]]
-                /\ pc' = [pc EXCEPT ![self] = "c_bsub1"]
-                /\ UNCHANGED << crashed, busTopics, busSubs, subCh, idxR, idxW, 
-                                index, topicChans, chans, nextChan, installQ, 
-                                uninstallQ, installed, errClosed, subTopic, 
-                                subState, unReq, resp, emitted, fmu, filters, 
-                                timer, coSpawned, ticks, fires, latestBlock, 
-                                lastIndexed, hdr, newBlockSig, quitBuf, quit, 
-                                f, ft, ech, addOk, inUse, cch, pch, pt, ptOk, 
-                                round, cs, ct, seen, ok, polls, found, me, h, 
-                                lb, sent >>
-
 c_bsub1(self) == /\ pc[self] = "c_bsub1"
+                 /\ seen[self] \/ installed[cs[self]]
                  /\ ok' = [ok EXCEPT ![self] = busTopics[ct[self]] # 0]
                  /\ pc' = [pc EXCEPT ![self] = "c_bsub2"]
                  /\ UNCHANGED << crashed, busTopics, busSubs, subCh, idxR, 
@@ -1191,7 +1191,7 @@ c_fadd(self) == /\ pc[self] = "c_fadd"
 
 c_next(self) == /\ pc[self] = "c_next"
                 /\ round' = [round EXCEPT ![self] = round[self] + 1]
-                /\ cs' = [cs EXCEPT ![self] = 0]
+                /\ cs' = [cs EXCEPT ![self] = IF round'[self] <= Rounds THEN SubOf(self - 30, round'[self]) ELSE 0]
                 /\ ct' = [ct EXCEPT ![self] = 0]
                 /\ seen' = [seen EXCEPT ![self] = FALSE]
                 /\ ok' = [ok EXCEPT ![self] = FALSE]
@@ -1222,12 +1222,11 @@ c_flock(self) == /\ pc[self] = "c_flock"
                                  found, me, h, lb, sent >>
 
 client(self) == c_begin(self) \/ c_topics(self) \/ c_inst(self)
-                   \/ c_wait(self) \/ c_bsub1(self) \/ c_bsub2(self)
-                   \/ c_funlock(self) \/ c_use(self) \/ g_lock(self)
-                   \/ g_timer(self) \/ g_unlock(self) \/ u_lock(self)
-                   \/ u_unsub(self) \/ c_recv(self) \/ c_unsub(self)
-                   \/ c_cancel(self) \/ c_fadd(self) \/ c_next(self)
-                   \/ c_flock(self)
+                   \/ c_bsub1(self) \/ c_bsub2(self) \/ c_funlock(self)
+                   \/ c_use(self) \/ g_lock(self) \/ g_timer(self)
+                   \/ g_unlock(self) \/ u_lock(self) \/ u_unsub(self)
+                   \/ c_recv(self) \/ c_unsub(self) \/ c_cancel(self)
+                   \/ c_fadd(self) \/ c_next(self) \/ c_flock(self)
 
 un_send(self) == /\ pc[self] = "un_send"
                  /\ unReq[self - 60] > 0
@@ -1390,7 +1389,8 @@ timeoutLoop == tl_idle \/ tl_scan \/ tl_unlock
 
 src_send == /\ pc[SRC] = "src_send"
             /\ IF emitted < MaxEvents
-                  THEN /\ \E tt \in Topics:
+                  THEN /\ Len(resp) < RespCap
+                       /\ \E tt \in Topics:
                             resp' = Append(resp, tt)
                        /\ emitted' = emitted + 1
                        /\ pc' = [pc EXCEPT ![SRC] = "src_send"]
@@ -1408,33 +1408,43 @@ src_send == /\ pc[SRC] = "src_send"
 source == src_send
 
 ih_sel == /\ pc[IH] = "ih_sel"
-          /\ IF WithIndexer
-                THEN /\ \/ /\ hdr # <<>>
-                           /\ h' = Head(hdr)
-                           /\ hdr' = Tail(hdr)
-                           /\ pc' = [pc EXCEPT ![IH] = "ih_cmp"]
-                           /\ UNCHANGED quitBuf
-                        \/ /\ quit
-                           /\ pc' = [pc EXCEPT ![IH] = "ih_q"]
-                           /\ UNCHANGED <<hdr, quitBuf, h>>
-                        \/ /\ quitBuf = 1
-                           /\ quitBuf' = 0
-                           /\ pc' = [pc EXCEPT ![IH] = "ih_q"]
-                           /\ UNCHANGED <<hdr, h>>
-                ELSE /\ pc' = [pc EXCEPT ![IH] = "ih_done"]
-                     /\ UNCHANGED << hdr, quitBuf, h >>
+          /\ WithIndexer
+          /\ pc' = [pc EXCEPT ![IH] = "ih_loop"]
           /\ UNCHANGED << crashed, busTopics, busSubs, subCh, idxR, idxW, 
                           index, topicChans, chans, nextChan, installQ, 
                           uninstallQ, installed, errClosed, subTopic, subState, 
                           unReq, resp, emitted, fmu, filters, timer, coSpawned, 
-                          ticks, fires, latestBlock, lastIndexed, newBlockSig, 
-                          quit, f, ft, ech, addOk, inUse, cch, pch, pt, ptOk, 
-                          round, cs, ct, seen, ok, polls, found, me, lb, sent >>
+                          ticks, fires, latestBlock, lastIndexed, hdr, 
+                          newBlockSig, quitBuf, quit, f, ft, ech, addOk, inUse, 
+                          cch, pch, pt, ptOk, round, cs, ct, seen, ok, polls, 
+                          found, me, h, lb, sent >>
+
+ih_loop == /\ pc[IH] = "ih_loop"
+           /\ \/ /\ hdr # <<>>
+                 /\ h' = Head(hdr)
+                 /\ hdr' = Tail(hdr)
+                 /\ pc' = [pc EXCEPT ![IH] = "ih_cmp"]
+                 /\ UNCHANGED quitBuf
+              \/ /\ quit
+                 /\ pc' = [pc EXCEPT ![IH] = "ih_q"]
+                 /\ UNCHANGED <<hdr, quitBuf, h>>
+              \/ /\ quitBuf = 1
+                 /\ quitBuf' = 0
+                 /\ pc' = [pc EXCEPT ![IH] = "ih_q"]
+                 /\ UNCHANGED <<hdr, h>>
+           /\ UNCHANGED << crashed, busTopics, busSubs, subCh, idxR, idxW, 
+                           index, topicChans, chans, nextChan, installQ, 
+                           uninstallQ, installed, errClosed, subTopic, 
+                           subState, unReq, resp, emitted, fmu, filters, timer, 
+                           coSpawned, ticks, fires, latestBlock, lastIndexed, 
+                           newBlockSig, quit, f, ft, ech, addOk, inUse, cch, 
+                           pch, pt, ptOk, round, cs, ct, seen, ok, polls, 
+                           found, me, lb, sent >>
 
 ih_cmp == /\ pc[IH] = "ih_cmp"
           /\ IF h > latestBlock
                 THEN /\ pc' = [pc EXCEPT ![IH] = "ih_set"]
-                ELSE /\ pc' = [pc EXCEPT ![IH] = "ih_sel"]
+                ELSE /\ pc' = [pc EXCEPT ![IH] = "ih_loop"]
           /\ UNCHANGED << crashed, busTopics, busSubs, subCh, idxR, idxW, 
                           index, topicChans, chans, nextChan, installQ, 
                           uninstallQ, installed, errClosed, subTopic, subState, 
@@ -1461,7 +1471,7 @@ ih_sig == /\ pc[IH] = "ih_sig"
                 THEN /\ newBlockSig' = 1
                 ELSE /\ TRUE
                      /\ UNCHANGED newBlockSig
-          /\ pc' = [pc EXCEPT ![IH] = "ih_sel"]
+          /\ pc' = [pc EXCEPT ![IH] = "ih_loop"]
           /\ UNCHANGED << crashed, busTopics, busSubs, subCh, idxR, idxW, 
                           index, topicChans, chans, nextChan, installQ, 
                           uninstallQ, installed, errClosed, subTopic, subState, 
@@ -1497,21 +1507,31 @@ ih_done == /\ pc[IH] = "ih_done"
                            inUse, cch, pch, pt, ptOk, round, cs, ct, seen, ok, 
                            polls, found, me, h, lb, sent >>
 
-idxHeader == ih_sel \/ ih_cmp \/ ih_set \/ ih_sig \/ ih_q \/ ih_done
+idxHeader == ih_sel \/ ih_loop \/ ih_cmp \/ ih_set \/ ih_sig \/ ih_q
+                \/ ih_done
+
+im_start == /\ pc[IM] = "im_start"
+            /\ WithIndexer
+            /\ pc' = [pc EXCEPT ![IM] = "im_top"]
+            /\ UNCHANGED << crashed, busTopics, busSubs, subCh, idxR, idxW, 
+                            index, topicChans, chans, nextChan, installQ, 
+                            uninstallQ, installed, errClosed, subTopic, 
+                            subState, unReq, resp, emitted, fmu, filters, 
+                            timer, coSpawned, ticks, fires, latestBlock, 
+                            lastIndexed, hdr, newBlockSig, quitBuf, quit, f, 
+                            ft, ech, addOk, inUse, cch, pch, pt, ptOk, round, 
+                            cs, ct, seen, ok, polls, found, me, h, lb, sent >>
 
 im_top == /\ pc[IM] = "im_top"
-          /\ IF WithIndexer
-                THEN /\ \/ /\ quit
-                           /\ pc' = [pc EXCEPT ![IM] = "im_q"]
-                           /\ UNCHANGED quitBuf
-                        \/ /\ quitBuf = 1
-                           /\ quitBuf' = 0
-                           /\ pc' = [pc EXCEPT ![IM] = "im_q"]
-                        \/ /\ ~quit /\ quitBuf = 0
-                           /\ pc' = [pc EXCEPT ![IM] = "im_chk"]
-                           /\ UNCHANGED quitBuf
-                ELSE /\ pc' = [pc EXCEPT ![IM] = "im_done"]
-                     /\ UNCHANGED quitBuf
+          /\ \/ /\ quit
+                /\ pc' = [pc EXCEPT ![IM] = "im_q"]
+                /\ UNCHANGED quitBuf
+             \/ /\ quitBuf = 1
+                /\ quitBuf' = 0
+                /\ pc' = [pc EXCEPT ![IM] = "im_q"]
+             \/ /\ ~quit /\ quitBuf = 0
+                /\ pc' = [pc EXCEPT ![IM] = "im_chk"]
+                /\ UNCHANGED quitBuf
           /\ UNCHANGED << crashed, busTopics, busSubs, subCh, idxR, idxW, 
                           index, topicChans, chans, nextChan, installQ, 
                           uninstallQ, installed, errClosed, subTopic, subState, 
@@ -1595,10 +1615,23 @@ im_done == /\ pc[IM] = "im_done"
                            inUse, cch, pch, pt, ptOk, round, cs, ct, seen, ok, 
                            polls, found, me, h, lb, sent >>
 
-idxMain == im_top \/ im_chk \/ im_wait \/ im_index \/ im_q \/ im_done
+idxMain == im_start \/ im_top \/ im_chk \/ im_wait \/ im_index \/ im_q
+              \/ im_done
+
+iq_start == /\ pc[IQ] = "iq_start"
+            /\ WithIndexer
+            /\ pc' = [pc EXCEPT ![IQ] = "iq_loop"]
+            /\ UNCHANGED << crashed, busTopics, busSubs, subCh, idxR, idxW, 
+                            index, topicChans, chans, nextChan, installQ, 
+                            uninstallQ, installed, errClosed, subTopic, 
+                            subState, unReq, resp, emitted, fmu, filters, 
+                            timer, coSpawned, ticks, fires, latestBlock, 
+                            lastIndexed, hdr, newBlockSig, quitBuf, quit, f, 
+                            ft, ech, addOk, inUse, cch, pch, pt, ptOk, round, 
+                            cs, ct, seen, ok, polls, found, me, h, lb, sent >>
 
 iq_loop == /\ pc[IQ] = "iq_loop"
-           /\ IF WithIndexer /\ ~quit
+           /\ IF ~quit
                  THEN /\ \/ /\ sent < MaxHeaders
                             /\ sent' = sent + 1
                             /\ hdr' = Append(hdr, sent')
@@ -1617,7 +1650,7 @@ iq_loop == /\ pc[IQ] = "iq_loop"
                            pch, pt, ptOk, round, cs, ct, seen, ok, polls, 
                            found, me, h, lb >>
 
-idxEnv == iq_loop
+idxEnv == iq_start \/ iq_loop
 
 Next == eventLoop \/ consumeEvents \/ timeoutLoop \/ source \/ idxHeader
            \/ idxMain \/ idxEnv
@@ -1645,9 +1678,9 @@ Parked(p) ==
   \/ p \in PTs /\ pc[p] \in {"pt_recv", "pt_loop"}     \* never started, or serving a topic
   \/ p \in UNs /\ pc[p] = "un_send"
   \/ p \in COs /\ (pc[p] = "co_start" \/ (pc[p] = "co_sel" /\ subState[p - 40] \in {"live", "new"}))
-  \/ p = IH /\ ~WithIndexer
-  \/ p = IM /\ ~WithIndexer
-  \/ p = IQ /\ ~WithIndexer
+  \/ p = IH /\ pc[p] = "ih_sel"
+  \/ p = IM /\ pc[p] = "im_start"
+  \/ p = IQ /\ pc[p] = "iq_start"
 
 Quiescent == \A p \in ProcSet : Parked(p)
 
